@@ -87,6 +87,7 @@ def showRule (r : PathRule) : String :=
 
 def showParseErr : ParseErr → String
   | .plusStar => "err:plusstar" | .badPolicy => "err:badpolicy" | .badCap => "err:badcap" | .ttl => "err:ttl"
+  | .dupParam => "err:dupparam" | .negTTL => "err:negttl"
 
 def parseOp (s : String) : Option Op :=
   match s with
